@@ -1462,6 +1462,11 @@ func (s *sim) execFetch(op Op) {
 					s.w.forged[string(ph.Header.Hash)+"|"+string(ph.Signature)] = true
 					s.label("fetch-answer-foreign-pubkeys")
 				}
+			case 3:
+				// the requested hash and the genuine validator sets, but other content under them
+				ph.Header.DataID = append(append([]byte(nil), ph.Header.DataID...), []byte("-altered")...)
+				s.w.forged[string(ph.Header.Hash)+"|"+string(ph.Signature)] = true
+				s.label("fetch-answer-altered-content")
 			}
 			select {
 			case s.n.fetch.FetchedCh <- ph:
